@@ -807,6 +807,22 @@ pub fn generate(rng: &mut Rng, prop: Prop, thorough: bool) -> (HistScenario, Str
                     6 | 7 => "\n// caf\u{e9} 10\u{20ac} \u{1f600}\u{1f600} \u{e9}\u{e9}\u{e9}\n".as_bytes().to_vec(),
                     _ => Vec::new(),
                 };
+                // sometimes a big file: a comment pads it so that a multi-byte character straddles
+                // offset 8192 (or 65536), the usual sizes of I/O buffers
+                let tail: Vec<u8> = if tail.is_empty() && rng.pct(6) {
+                    let target = if rng.pct(75) { 8192usize } else { 65536 };
+                    let len = c.text().len();
+                    if len + 8 < target {
+                        let mut t = b"\n// ".to_vec();
+                        t.resize(target - len - 1, b'x');
+                        t.extend_from_slice("\u{e9}\u{20ac} end\n".as_bytes());
+                        t
+                    } else {
+                        tail
+                    }
+                } else {
+                    tail
+                };
                 let mut all = c.text().into_bytes();
                 all.extend_from_slice(&tail);
                 disk_bytes.insert(disk_slot(&p), all);
